@@ -10,6 +10,7 @@ CLAIMED = {
  "C02": ("On every explored path of join/meet: raises LinearDependenceError only if the rank condition holds, returns only if it does not; NotCoplanar iff det[a,b,c,d] != 0; is_coplanar <=> det = 0. Discharged exactly over all complex coordinates (idealised zero test).", "4.2"),
  "C20": ("det (n=2, Sarrus n=3 for batches >= 64, LAPACK leaf otherwise), adjugate (n=2; epsilon diagram n=3,4; minors for batches >= 64 and n=5), inv (adj/det path with LinAlgError iff singular), is_multiple (<=> all 2x2 minors vanish, every axis form), hat_matrix, matmul/matvec/outer, roots (linear, quadratic with Vieta, triple root) are executed symbolically and discharged against Leibniz/cofactor specifications for all entries; batches are A + k*B so that every batch position ranges over all matrices.", "4.20"),
  "C05": ("TensorDiagram construction and evaluation is executed on symbolic tensor entries for an enumerated set of diagram structures (all 1-2 node diagrams over 23 index-type patterns with up to 3 edges, sampled 3-node diagrams incl. self edges, repeated edges and dimension mismatches): bookkeeping invariants, TensorComputationError <=> spec error, result shape/index types and every result entry == the Einstein sum computed by an independent nested-sum evaluator. LeviCivitaTensor(n<=5, 6 thorough) and KroneckerDelta(n<=4,p) are compared entry by entry with their definitions.", "4.5"),
+ "C19": ("Dunder arithmetic of Tensor (all operand kinds, bound tensors and collections), affine point arithmetic incl. points at infinity, fall-through of non-point operands, the whole ufunc->dunder dispatch table, t[index] for every index-kind sequence of ranks 1-3 (rank 4 thorough) against numpy itself as oracle, transpose / T / copy / expand_dims: symbolic entries where values matter, exhaustive enumeration of the finite index-kind and dispatch tables.", "4.19"),
 }
 NA = {}
 def main():
